@@ -452,15 +452,22 @@ def deck_features():
     F["comment"] = [dict(title=v(), body=[[("t", v())]], comment=x("COM"))]
     F["footer"] = [dict(title=v(), body=[[("t", v())]], footer=x("HF"))]
     F["two-textboxes"] = [dict(title=v(), body=[[("t", v())]], extra=[[("t", v())]])]
+    F["subtitle"] = [dict(title=v(), subtitle=v(), body=[[("t", v())]])]
     return F
 
 
 def deck_spec(slides, tables_in_text=True):
+    """pptx: reading order.  odp (tables_in_text False): the documented category order title, body, other --
+    a SubTitle-styled paragraph after the title is `other`."""
     out = []
     for s in slides:
         out.append(s["title"])
+        if s.get("subtitle") and tables_in_text:
+            out.append(s["subtitle"])
         out.extend(inline_spec(p) for p in s["body"])
         out.extend(inline_spec(p) for p in s.get("extra", []))
+        if s.get("subtitle") and not tables_in_text:
+            out.append(s["subtitle"])
         if tables_in_text and s.get("table"):
             out.extend(" ".join(r) for r in s["table"])
     return "\n".join(out)
@@ -497,6 +504,8 @@ def render_pptx(slides):
     prel, ids = [], []
     for n, s in enumerate(slides, 1):
         shapes = [pptx_shape(2, "title", [[("t", s["title"])]], 100), pptx_shape(3, "body", s["body"], 1000)]
+        if s.get("subtitle"):
+            shapes.append(pptx_shape(4, "subTitle", [[("t", s["subtitle"])]], 500))
         if s.get("extra"):
             shapes.append(pptx_shape(5, None, s["extra"], 2000))
         if s.get("table"):
@@ -549,6 +558,8 @@ def render_odp(slides):
             raise Unsupported("odp footer")
         fr = [f'<draw:frame presentation:class="title" svg:x="1cm" svg:y="1cm"><draw:text-box>{odp_par([("t", s["title"])], "TitleText")}</draw:text-box></draw:frame>',
               '<draw:frame presentation:class="outline" svg:x="1cm" svg:y="4cm"><draw:text-box>' + "".join(odp_par(p, "BodyText") for p in s["body"]) + "</draw:text-box></draw:frame>"]
+        if s.get("subtitle"):
+            fr.append(f'<draw:frame presentation:class="subtitle" svg:x="1cm" svg:y="2cm"><draw:text-box>{odp_par([("t", s["subtitle"])], "SubTitleText")}</draw:text-box></draw:frame>')
         if s.get("extra"):
             fr.append('<draw:frame svg:x="1cm" svg:y="8cm"><draw:text-box>' + "".join(odp_par(p, "BodyText") for p in s["extra"]) + "</draw:text-box></draw:frame>")
         if s.get("comment"):
